@@ -617,11 +617,12 @@ func (p *Pos) Valid() error {
 type Game struct {
 	Start Pos
 	Moves []Move
-	pos   []Pos // pos[i] = position after i moves
+	pos   []Pos    // pos[i] = position after i moves
+	keys  []string // keys[i] = pos[i].Key(), computed once
 }
 
 // NewGame starts a game from p.
-func NewGame(p Pos) *Game { return &Game{Start: p, pos: []Pos{p}} }
+func NewGame(p Pos) *Game { return &Game{Start: p, pos: []Pos{p}, keys: []string{p.Key()}} }
 
 // Cur is the current position.
 func (g *Game) Cur() *Pos { return &g.pos[len(g.pos)-1] }
@@ -631,26 +632,28 @@ func (g *Game) Push(m Move) {
 	n := g.Cur().Play(m)
 	g.Moves = append(g.Moves, m)
 	g.pos = append(g.pos, n)
+	g.keys = append(g.keys, n.Key())
 }
 
 // Pop takes back the last move.
 func (g *Game) Pop() {
 	g.Moves = g.Moves[:len(g.Moves)-1]
 	g.pos = g.pos[:len(g.pos)-1]
+	g.keys = g.keys[:len(g.keys)-1]
 }
 
 // Clone copies the game.
 func (g *Game) Clone() *Game {
-	return &Game{Start: g.Start, Moves: append([]Move(nil), g.Moves...), pos: append([]Pos(nil), g.pos...)}
+	return &Game{Start: g.Start, Moves: append([]Move(nil), g.Moves...), pos: append([]Pos(nil), g.pos...), keys: append([]string(nil), g.keys...)}
 }
 
 // Occurrences counts how often the current position has occurred in the game
 // including now.
 func (g *Game) Occurrences() int {
-	k := g.Cur().Key()
+	k := g.keys[len(g.keys)-1]
 	n := 0
-	for i := range g.pos {
-		if g.pos[i].Key() == k {
+	for i := range g.keys {
+		if g.keys[i] == k {
 			n++
 		}
 	}
